@@ -870,5 +870,10 @@ def run(run_, tier):
     variance(run_, it)
     covariance(run_, it, tier)
     large_offsets(run_)
+    # "for any history": an adapter object is shared by every chain and every stage of its process, the history lives in the adapt_state dictionaries.  Frame
+    # (Engine C, static): no adapter method other than __init__ writes to self -- otherwise a later chain / stage starts from what an earlier one left behind
+    from . import c14
+    from .trans_model import FilterRun
+    c14.shared_objects_frame(FilterRun(run_, lambda oid: "adapters." in oid))
     run_.extraction_drops.extend(sorted(it.dropped))
     run_.notes.append(f"paths explored: {it.paths}; solver seconds {it.solver_seconds:.2f}")
